@@ -873,7 +873,7 @@ fn interval_ms(s: &str) -> Option<f64> {
   let n: f64 = num.parse().ok()?;
   let u = match unit {
     "ms" => 1.0,
-    "s" => 1e3,
+    "" | "s" => 1e3,
     "m" => 6e4,
     "h" => 3.6e6,
     "d" => 8.64e7,
@@ -954,6 +954,27 @@ fn bucket_estimate(aggs: &Value) -> f64 {
   worst
 }
 
+
+/// Remove every histogram / date_histogram node (recursively); returns true if any was removed.
+fn strip_histograms(aggs: &mut Value) -> bool {
+  let mut removed = false;
+  if let Some(m) = aggs.as_object_mut() {
+    let keys: Vec<String> = m.keys().cloned().collect();
+    for k in keys {
+      let ty = m[&k].get("type").and_then(|t| t.as_str()).unwrap_or("").to_string();
+      if ty == "histogram" || ty == "date_histogram" {
+        m.remove(&k);
+        removed = true;
+      } else if let Some(sub) = m.get_mut(&k).and_then(|a| a.get_mut("aggs")) {
+        if strip_histograms(sub) {
+          removed = true;
+        }
+      }
+    }
+  }
+  removed
+}
+
 fn panic_sig(p: &str) -> String {
   // file + message stem (digits removed): stable across unrelated edits
   let site = vcore::ctx::panic_site(p);
@@ -962,6 +983,21 @@ fn panic_sig(p: &str) -> String {
   let msg = msg.split("failed: ").last().unwrap_or(msg);
   let stem: Vec<String> = msg.split_whitespace().take(5).map(|w| w.chars().filter(|c| !c.is_ascii_digit()).collect::<String>()).collect();
   format!("panic:{file}:{}", stem.join(" "))
+}
+
+
+/// True when the request's trouble goes away once its histogram aggregations are removed.
+fn explosion_by_intervention(wexe: &Path, seed: u64, dir: &Path, mem: u64, text: &str, bound_s: u64) -> bool {
+  let mut stripped: Value = serde_json::from_str(text).unwrap_or(Value::Null);
+  let had = stripped.get_mut("aggs").map(strip_histograms).unwrap_or(false);
+  if !had {
+    return false;
+  }
+  let Some(mut w3) = spawn_worker(wexe, seed, dir, mem) else { return false };
+  let ok = matches!(ask(&mut w3, &stripped.to_string(), Duration::from_secs(bound_s)), Reply::Line(_));
+  let _ = w3.child.kill();
+  let _ = w3.child.wait();
+  ok
 }
 
 fn feature_of(req: &Value) -> String {
@@ -1053,7 +1089,10 @@ fn main() {
         }
         Reply::Died(st) => {
           l.eval();
-          let feat = feature_of(&serde_json::from_str::<Value>(&text).unwrap_or(Value::Null));
+          let mut feat = feature_of(&serde_json::from_str::<Value>(&text).unwrap_or(Value::Null));
+          if feat != "histogram-bucket-explosion" && explosion_by_intervention(&wexe, index_seed, &dir, mem, &text, t_req * 10) {
+            feat = "histogram-bucket-explosion".to_string();
+          }
           l.fail(format!("worker-killed:{feat}"), format!("the search killed the worker process ({st}): abort or allocation beyond 2 GiB"), case(json!({"status": st})));
           match spawn_worker(&wexe, index_seed, &dir, mem) {
             Some(nw) => w = nw,
@@ -1066,7 +1105,21 @@ fn main() {
         Reply::Timeout => {
           let _ = w.child.kill();
           let _ = w.child.wait();
-          let feat0 = feature_of(&serde_json::from_str::<Value>(&text).unwrap_or(Value::Null));
+          let mut feat0 = feature_of(&serde_json::from_str::<Value>(&text).unwrap_or(Value::Null));
+          if feat0 != "histogram-bucket-explosion" {
+            // classification by intervention: the same request without its histogram aggregations
+            let mut stripped: Value = serde_json::from_str(&text).unwrap_or(Value::Null);
+            let had = stripped.get_mut("aggs").map(strip_histograms).unwrap_or(false);
+            if had {
+              if let Some(mut w3) = spawn_worker(&wexe, index_seed, &dir, mem) {
+                if let Reply::Line(_) = ask(&mut w3, &stripped.to_string(), Duration::from_secs(t_req * 10)) {
+                  feat0 = "histogram-bucket-explosion".to_string();
+                }
+                let _ = w3.child.kill();
+                let _ = w3.child.wait();
+              }
+            }
+          }
           if feat0 == "histogram-bucket-explosion" {
             // the request spans > 5e5 buckets between its bounds on a <= 90 document index: not re-run alone (listed class)
             l.eval();
